@@ -21,7 +21,10 @@ Record tables := mkTables {
   t_decse : list (bytes * str);
   t_encse : list (str * res val);
   t_url : list (str * res (bytes * str));
-  t_ctfix : list (bytes * bytes) }.
+  t_ctfix : list (bytes * bytes);
+  t_auth : list (bytes * bytes);
+  t_pauth : list (bytes * (bytes * option N));
+  t_unparse : list (bytes * bytes * N * bytes * str) }.
 
 Fixpoint lookup {K V} (eqb : K -> K -> bool) (t : list (K * V)) (k : K) : option V :=
   match t with
@@ -47,7 +50,15 @@ Definition lib_of (T : tables) : lib :=
         (fun b => match lookup bytes_eqb (t_decse T) b with Some s => s | None => NO_STR end)
         (fun s => or_missing (lookup str_eqb (t_encse T) s))
         (fun u => or_missing (lookup str_eqb (t_url T) u))
-        (fun ct => match lookup bytes_eqb (t_ctfix T) ct with Some r => r | None => NO_ENC end).
+        (fun ct => match lookup bytes_eqb (t_ctfix T) ct with Some r => r | None => NO_ENC end)
+        (fun a => match lookup bytes_eqb (t_auth T) a with Some r => r | None => NO_ENC end)
+        (fun hh => match lookup bytes_eqb (t_pauth T) hh with Some r => r | None => (NO_ENC, None) end)
+        (fun scheme host port path =>
+           match lookup (fun x y : bytes * bytes * N * bytes =>
+                           let '(a, b, c, d) := x in let '(a', b', c', d') := y in
+                           bytes_eqb a a' && bytes_eqb b b' && N.eqb c c' && bytes_eqb d d')
+                        (t_unparse T) (scheme, host, port, path) with
+           | Some r => r | None => NO_STR end).
 
 Definition fields_eqb (a b : list field) : bool := list_eqb field_eqb a b.
 Definition ob_eqb := option_eqb bytes_eqb.
